@@ -461,7 +461,7 @@ def register_numpy():
     @normalize_token.register(np.ndarray)
     def normalize_array(x):
         if not x.shape:
-            return (x.item(), x.dtype)
+            return (normalize_token(x.item()), x.dtype)
         if x.dtype.hasobject:
             try:
                 try:
